@@ -25,8 +25,9 @@ from props import c10 as _c10
 ID = 'C11'
 # Props.C11: theorems about the hand model; Proofs.ObsMemGenEq: the model regenerated from the current
 # py65/memory.py equals the hand model; Props.C11g: the theorems restated for the regenerated definitions.
-LEAN_MODULES = ['Py65.Props.C11', 'Py65.Proofs.ObsMemGenEq', 'Py65.Props.C11g']
-NAMESPACES = ['Py65.Props.C11', 'Py65.Proofs.ObsMemGenEq', 'Py65.Props.C11g']
+# Props.C11h: the device-level statement (n generated step()s on the memory object = n step()s on the plain memory).
+LEAN_MODULES = ['Py65.Props.C11', 'Py65.Proofs.ObsMemGenEq', 'Py65.Props.C11g', 'Py65.Props.C11h']
+NAMESPACES = ['Py65.Props.C11', 'Py65.Proofs.ObsMemGenEq', 'Py65.Props.C11g', 'Py65.Props.C11h']
 # library helpers (CPython behaviour modelled in lean/Py65/Model/*Rt*.lean ...) that the generated code of these
 # modules calls, derived by scanning the Lean sources (harness/rtscan.py); validated against CPython on every run
 import rtcheck  # noqa: E402
@@ -59,7 +60,9 @@ ASSUMPTIONS = [
 ]
 EXPECTED_THEOREMS = ['Py65.Props.C11.obs_transparent_get', 'Py65.Props.C11.obs_transparent_set',
                      'Py65.Props.C11.replay_equiv'] + _c10.GEN_EQ_THEOREMS + [
-    'Py65.Props.C11g.obs_transparent_get', 'Py65.Props.C11g.obs_transparent_set', 'Py65.Props.C11g.replay_equiv']
+    'Py65.Props.C11g.obs_transparent_get', 'Py65.Props.C11g.obs_transparent_set', 'Py65.Props.C11g.replay_equiv',
+    'Py65.Props.C11h.transparent_run', 'Py65.Props.C11h.transparent_run_unobserved',
+    'Py65.Props.C11h.in_range_8bit', 'Py65.Props.C11h.transparent_run_8bit']
 
 LEN = {'imp': 1, 'acc': 1, 'imm': 2, 'zpg': 2, 'zpx': 2, 'zpy': 2, 'inx': 2, 'iny': 2, 'rel': 2, 'zpi': 2,
        'abs': 3, 'abx': 3, 'aby': 3, 'ind': 3, 'iax': 3}
